@@ -122,6 +122,12 @@ func cmdCheck(args []string) int {
 	}
 	results := eng.verifyAll(fns, opt)
 	known := loadKnown(opt.Verif)
+	opt.ExpectFail = map[string]bool{}
+	for _, k := range known {
+		if k.Status == "known" {
+			opt.ExpectFail[k.Function+"#"+k.Obligation] = true
+		}
+	}
 
 	type oblRec struct {
 		Function   string `json:"function"`
@@ -182,6 +188,10 @@ func cmdCheck(args []string) int {
 		return false
 	}
 
+	axiomProbeWG.Wait()
+	for _, v := range axiomProbeResult {
+		vacuous = append(vacuous, v)
+	}
 	for _, r := range results {
 		solverMs += r.SolverMs
 		for _, k := range r.Trusted {
